@@ -2,6 +2,7 @@ package render
 
 import (
 	"fmt"
+	"sort"
 	"strings"
 
 	"github.com/olive-io/bpmn/schema"
@@ -87,7 +88,13 @@ func SetXML(ms []SetMember, flows []MsgFlow) string {
 			}
 		}
 	}
-	for r, k := range refs {
+	names := make([]string, 0, len(refs))
+	for r := range refs {
+		names = append(names, r)
+	}
+	sort.Strings(names)
+	for _, r := range names {
+		k := refs[r]
 		if k == "signal" {
 			fmt.Fprintf(&w, "  <bpmn:signal id=\"%s\" name=\"%s\"/>\n", esc(r), esc(r))
 		} else {
